@@ -98,22 +98,33 @@ pub fn fmt_match(m: &Match) -> String {
         }
     }
     s.push(']');
-    let mut any = false;
-    for (name, r) in m.named_groups() {
-        if !any {
-            s.push_str(";n=");
-            any = true;
-        } else {
-            s.push(',');
-        }
-        match r {
-            Some(r) => {
-                let _ = write!(s, "{}={}..{}", name, r.start, r.end);
+    // named_groups() is library code running on a value the library produced: if that value
+    // is inconsistent (capture list and name table of different lengths) the accessor
+    // panics. That is an observation about the value, not a failure of the harness.
+    let named = catch_unwind(AssertUnwindSafe(|| {
+        let mut t = String::new();
+        let mut any = false;
+        for (name, r) in m.named_groups() {
+            if !any {
+                t.push_str(";n=");
+                any = true;
+            } else {
+                t.push(',');
             }
-            None => {
-                let _ = write!(s, "{}=-", name);
+            match r {
+                Some(r) => {
+                    let _ = write!(t, "{}={}..{}", name, r.start, r.end);
+                }
+                None => {
+                    let _ = write!(t, "{}=-", name);
+                }
             }
         }
+        t
+    }));
+    match named {
+        Ok(t) => s.push_str(&t),
+        Err(_) => s.push_str(";n=<named_groups() panicked>"),
     }
     s.push(')');
     s
